@@ -119,6 +119,9 @@ def mapping(names, log, state):
                                                      "Glyph": Recorder("lm.Glyph")}, log)))
     except ImportError:
         pass
+    import tqdm
     import tqdm.auto
-    m.append((tqdm.auto, _NS(tqdm=lambda it, **kw: it)))
+    ident = lambda it=None, *a, **kw: it        # a progress bar yields exactly the items of the iterable it wraps
+    m.append((tqdm.auto, _NS(tqdm=ident, trange=lambda *a, **kw: range(*a))))
+    m.append((tqdm, _NS(auto=_NS(tqdm=ident, trange=lambda *a, **kw: range(*a)), tqdm=ident, trange=lambda *a, **kw: range(*a))))
     return m
